@@ -78,6 +78,10 @@ func ParseCFF2(src []byte) (*CFF2, error) {
 		return nil, err
 	}
 
+	if len(fdIndex) == 0 {
+		return nil, errors.New("reading font dicts: missing font dict")
+	}
+
 	out.fonts = make([]privateFonts, len(fdIndex))
 	// private dict reference
 	for i, font := range fdIndex {
@@ -86,8 +90,8 @@ func ParseCFF2(src []byte) (*CFF2, error) {
 		if err != nil {
 			return nil, fmt.Errorf("reading font dict: %s", err)
 		}
-		end := int(fd.privateDictOffset + fd.privateDictSize)
-		if L := len(src); L < end {
+		end := int(fd.privateDictOffset) + int(fd.privateDictSize)
+		if L := len(src); fd.privateDictOffset < 0 || fd.privateDictSize < 0 || L < end {
 			return nil, fmt.Errorf("reading private dict: EOF: expected length: %d, got %d", end, L)
 		}
 		// parse private dict
@@ -110,7 +114,7 @@ func ParseCFF2(src []byte) (*CFF2, error) {
 
 	if len(fdIndex) > 1 {
 		// parse the fdSelect
-		if L := len(src); L < int(tp.fdSelect) {
+		if L := len(src); tp.fdSelect < 0 || L < int(tp.fdSelect) {
 			return nil, fmt.Errorf("reading fdSelect: EOF: expected length: %d, got %d", tp.fdSelect, L)
 		}
 		out.fdSelect, _, err = parseFdSelect(src[tp.fdSelect:], len(out.Charstrings))
@@ -128,7 +132,7 @@ func ParseCFF2(src []byte) (*CFF2, error) {
 	// parse variation store
 	if tp.vstore != 0 {
 		// See https://learn.microsoft.com/en-us/typography/opentype/spec/cff2#variationstore-data-contents
-		if E, L := int(tp.vstore)+2, len(src); L < E {
+		if E, L := int(tp.vstore)+2, len(src); tp.vstore < 0 || L < E {
 			return nil, fmt.Errorf("reading variation store: EOF: expected length: %d, got %d", E, L)
 		}
 		size := int(binary.BigEndian.Uint16(src[tp.vstore:]))
@@ -146,7 +150,7 @@ func ParseCFF2(src []byte) (*CFF2, error) {
 }
 
 func parseIndex2(src []byte, offset int) ([][]byte, error) {
-	if L := len(src); L < offset+5 {
+	if L := len(src); offset < 0 || L < offset+5 {
 		return nil, fmt.Errorf("reading INDEX: EOF: expected length: %d, got %d", offset+5, L)
 	}
 	var is indexStart
